@@ -26,5 +26,5 @@ DELIVERABLES in $out/ :
  - the demonstration file(s), plus their intended repo-relative path
  - NOTES.md : what you changed; why it breaks the property; what it needs in order to manifest; the exact commands you ran with their outcomes (demo FAILS with patch, demo PASSES without patch, existing package tests PASS with patch and without the demo file).
 
-ENVIRONMENT: no network. In every shell call first run: export GOFLAGS=-mod=mod GOPROXY=off GOSUMDB=off ; use the 'go1.26' command instead of 'go'. The machine is shared: be economical (target tests with -run while iterating; run the touched packages' full tests once at the end; the actor package's full tests take several minutes). Do not commit anything and NEVER use git stash (the stash is shared between worktrees; to test without your patch use: git diff > /tmp/x.diff; git apply -R /tmp/x.diff; ...; git apply /tmp/x.diff). When finished, reply with a short summary (files written, what the change is, what it needs to manifest).
+ENVIRONMENT: no network. In every shell call first run: export GOFLAGS=-mod=mod GOPROXY=off GOSUMDB=off ; use the 'go1.26' command instead of 'go'. The machine is shared: be economical (target tests with -run while iterating; run the touched packages' full tests once at the end, EXCEPT the ./actor/ package: its full suite takes 40 minutes here, so for ./actor/ run only the tests related to the code you touched, selected with -run, plus 'go1.26 vet' is not needed; the full actor suite will be run separately by the maintainer). Do not commit anything and NEVER use git stash (the stash is shared between worktrees; to test without your patch use: git diff > /tmp/x.diff; git apply -R /tmp/x.diff; ...; git apply /tmp/x.diff). When finished, reply with a short summary (files written, what the change is, what it needs to manifest).
 P
